@@ -69,6 +69,17 @@ def in_pseudo_domain(m):
         return True
 
 
+def in_ring_pseudo_domain(m):
+    """the part of the pseudo-asymmetric domain where RDKit's own perception drops or re-derives tags (ring para-centres); acyclic
+    dependent centres (two separate arms differing by their labels) are handled by both toolkits and stay in the comparison"""
+    try:
+        col, adj = wl.constitution(m)
+        orb = wl.orbits(col, adj)
+        return wl.gap_a_ring(m, orb) or wl.odd_label_orbit(m, orb) or wl.annulene_stereo(m)
+    except TimeoutError:
+        return True
+
+
 def check_case(case, rec):
     from rdkit import Chem
     from chython.utils.rdkit import to_rdkit_molecule, from_rdkit_molecule
@@ -193,7 +204,7 @@ def check_case(case, rec):
         rec.fail('round-trip', f'{label}: from_rdkit(to_rdkit(m)) = {str(back)!r} differs atom-wise', sig='atomwise')
         return
     d = molgen.compare_stereo(rn, back, bmp)
-    if d and not pseudo:
+    if d and not (pseudo and in_ring_pseudo_domain(m)):
         rec.fail('round-trip', f'{label}: from_rdkit(to_rdkit(m)) = {str(back)!r}: {d[:3]}', sig=d[0][0])
         return
     if case['mapping'] and [a._parsed_mapping for _, a in back.atoms()] != nums:
